@@ -1,5 +1,7 @@
 import WmModel.Props.C15
 import WmModel.Props.C15Tie
+import WmModel.Props.C15Router
+import WmModel.Props.C02Tie
 #print axioms Wm.Cqrs.bus_publishes_once
 #print axioms Wm.Cqrs.bus_name_metadata
 #print axioms Wm.Cqrs.bus_hook_before_publish
@@ -29,3 +31,7 @@ import WmModel.Props.C15Tie
 #print axioms Wm.GoCqrs.extracted_event_eq_model
 #print axioms Wm.GoCqrs.extracted_group_eq_model
 #print axioms Wm.GoCqrs.extracted_no_unknown
+#print axioms Wm.Cqrs.settleOf_eq_handle
+#print axioms Wm.Cqrs.processor_handler_never_publishes
+#print axioms Wm.GoHandle.handle_skeleton_eq_model
+#print axioms Wm.GoHandle.publish_skeleton_eq_model
